@@ -22,6 +22,8 @@ LAYOUTS = [
     ("misaligned full-to-end chain + partly filled chain", [dict(buffer_len=100, misalign=20, off=80), dict(buffer_len=100, off=30)], 1),
     ("three chains, last empty", [dict(buffer_len=100, off=10), dict(buffer_len=100, misalign=5, off=20), dict(buffer_len=100, off=0)], 1),
     ("one empty chain", [dict(buffer_len=100, off=0)], 0),
+    # what evbuffer_prepend leaves behind when the data does not fit and the second chain cannot be allocated: misalign moved to the end of the empty chain
+    ("one empty chain, misaligned to its end", [dict(buffer_len=100, misalign=100, off=0)], 0),
 ]
 
 
